@@ -118,6 +118,7 @@ fn all_opts() -> Opts {
     o.first_line_empty_pct = 10;
     o.unwrap_pct = 50;
     o.join_pct = 5;
+    o.multiline_tag_pct = 10;
     o
 }
 
